@@ -2265,6 +2265,7 @@ package nutsdb
 //@   ensures[C14,C18] lockMode == 0
 //@   modifies everything
 //@   safety[C20] panics
+//@   at call CopyDir: assert[C18] lockMode == 1
 // the function literal inside Backup: it runs as the callback of View, i.e. under the read lock (DB.managed proves
 // lockMode == 1 at the call of a read-only callback), and copies the directory while holding it
 //@ func Backup$1
